@@ -68,8 +68,18 @@ class FlagSerde:
         return eval(value.decode())
 
 
+class ReprSerde:
+    """A serializer that does not use the flags at all: everything is stored as its repr, flags 0."""
+
+    def serialize(self, key, value):
+        return repr(value).encode("utf8"), 0
+
+    def deserialize(self, key, value, flags):
+        return eval(value.decode("utf8"))
+
+
 def serdes(tier):
-    out = [("none", None), ("custom", FlagSerde())]
+    out = [("none", None), ("custom", FlagSerde()), ("repr0", ReprSerde())]
     protos = range(6) if tier == "thorough" else (0, 2, 5)
     out += [(f"pickle{p}", _serde.PickleSerde(pickle_version=p)) for p in protos]
     out.append(("compressed", _serde.CompressedSerde()))
@@ -204,7 +214,7 @@ def _w_values(job, chk):
     if sname in ("none",):
         values = [(v, "ascii") for v in byte_values(tier)] + [(v, "utf8") for v in text_values()] + \
                  [(v, "ascii") for v in text_values() if not (isinstance(v, str) and not v.isascii())]
-    elif sname == "custom":
+    elif sname in ("custom", "repr0"):
         values = [(v, "ascii") for v in byte_values(tier)[:60] + byte_values(tier)[-20:]] + \
                  [(v, "ascii") for v in ("", "é", 0, 5, True, False, ("t", 1), [1, 2], None)]
     else:
